@@ -223,7 +223,7 @@ def stream_wcet(rng, n):
             if k < 0.5:
                 ops.append(f"ccvec cc_tr {rng.randint(1, 6)} {gen.lst([rng.randint(0, 9) for _ in range(rng.randint(0, 14))])}")
             elif k < 0.8:
-                ops.append(f"ccvec cc_ext {rng.randint(1, 16)} cc {gen.lst(gen.gen_cost_vec(rng))}")
+                ops.append(f"ccvec cc_ext {rng.randint(0, 16)} cc {gen.lst(gen.gen_cost_vec(rng))}")
             else:
                 ops.append(f"ccvec cc_it {gen.lst([rng.randint(0, 20) for _ in range(rng.randint(0, 6))])}")
     return ops
